@@ -182,3 +182,37 @@ func hasAmbig(s string) bool {
 }
 
 func decThr(num, den int) float64 { return float64(num) / float64(den) }
+
+// genThreshold picks an --aggregate threshold num/den (den a power of ten) for n query sequences: 0, 1, a two-decimal
+// value, or a value at / just below / just above an occurring frequency k/n - the exact value when it is a finite
+// decimal, its 3-, 9- (nearest) and 12-decimal (floor, ceiling) neighbours otherwise. With at most 12 decimals and
+// n <= 1000 the distance to any other k'/n is far above a float64 ulp, so "count/n >= threshold" means the same over
+// the rationals (the model) and over float64 (the Go code).
+func genThreshold(r *RNG, n int) (int, int) {
+	if n < 1 {
+		n = 1
+	}
+	switch r.Intn(8) {
+	case 0:
+		return 0, 1
+	case 1:
+		return 1, 1
+	case 2:
+		return r.Range(0, 100), 100
+	case 3:
+		k := r.Range(1, n)
+		return k * 1000 / n, 1000
+	case 4: // nearest at 9 decimals: the printed frequency
+		k := r.Range(1, n)
+		return (k*2000000000 + n) / (2 * n), 1000000000
+	case 5: // floor at 12 decimals: at or just below k/n
+		k := r.Range(1, n)
+		return k * 1000000000000 / n, 1000000000000
+	case 6: // ceiling at 12 decimals: at or just above k/n
+		k := r.Range(1, n)
+		return (k*1000000000000 + n - 1) / n, 1000000000000
+	default: // floor at 9 decimals
+		k := r.Range(1, n)
+		return k * 1000000000 / n, 1000000000
+	}
+}
